@@ -471,6 +471,21 @@ impl Modelled for Cow<'static, [u8]> {
     }
 }
 
+impl Modelled for Cow<'static, [u32]> {
+    fn schema() -> S {
+        S::Ptr(PtrKind::Cow, Box::new(seq_schema::<u32>(SeqKind::Vec)))
+    }
+    fn to_model(&self) -> V {
+        u32::seq_to_model(self.iter(), self.len())
+    }
+    fn from_model(v: &V) -> Self {
+        Cow::Owned(u32::seq_from_model(v))
+    }
+    fn heap_payload(&self) -> usize {
+        self.len() * 4
+    }
+}
+
 impl Modelled for bytes::Bytes {
     fn schema() -> S {
         S::Bytes
